@@ -5193,7 +5193,7 @@ def _fix_imported_as_self_or_unsorted(source: str) -> str:
             [(name, asname if asname != name else None) for name, asname in names],
             key=lambda t: (t[0], t[1] is not None, t[1]),
         )
-        if names != expected_names:
+        if names != expected_names and not _import_order_matters([node]):
             replacements[node] = ast.Import(
                 names=[ast.alias(name=name, asname=asname) for name, asname in expected_names]
             )
@@ -5204,7 +5204,7 @@ def _fix_imported_as_self_or_unsorted(source: str) -> str:
             [(name, asname if asname != name else None) for name, asname in names],
             key=lambda t: (t[0], t[1] is not None, t[1]),
         )
-        if names != expected_names:
+        if names != expected_names and not _import_order_matters([node]):
             replacements[node] = ast.ImportFrom(
                 module=node.module,
                 names=[ast.alias(name=name, asname=asname) for name, asname in expected_names],
@@ -5262,14 +5262,10 @@ def _import_group_key(node: ast.Import | ast.ImportFrom) -> Tuple[int, int]:
 
 def _import_order_matters(nodes: Sequence[ast.AST]) -> bool:
     """Whether some name is bound by more than one of these import statements, or may be."""
-    bound_names = collections.Counter()
-    for node in nodes:
-        names = {alias.asname or alias.name.split(".")[0] for alias in node.names}
-        if "*" in names:
-            return True
-        bound_names.update(names)
-
-    return any(count > 1 for count in bound_names.values())
+    bound_names = collections.Counter(
+        alias.asname or alias.name.split(".")[0] for node in nodes for alias in node.names
+    )
+    return "*" in bound_names or any(count > 1 for count in bound_names.values())
 
 
 def _sort_import_statements(source: str) -> str:
